@@ -119,6 +119,26 @@ def _timeline(rec, rng, sim, R, V, srv, pi, pt, n, monitor, rto, desc):
                 R.ws_send(s, wire)
             else:
                 R.post_raw(s, wire)
+        elif k < 0.58 and not R.ended(s):
+            # an upgrade attempt that fails at once (wrong first frame or the
+            # socket closed), or a stray second attempt on a session that is
+            # on WebSocket already: the heartbeat of the session goes on
+            rec.count('failed_upgrade_attempts')
+            if s.mode == 'polling' and s.up_state not in ('started',
+                                                          'probed'):
+                ws = R.upgrade_start(s, 'manual')
+                sim.quiesce()
+                if rng.random() < 0.5:
+                    ws.send('2x')
+                    sim.quiesce()
+                ws.close()
+                sim.quiesce()
+                R.upgrade_failed(s)
+            elif s.mode == 'websocket':
+                ws2, t2 = sim.upgrade_ws(s.h)
+                sim.quiesce()
+                ws2.close()
+                sim.quiesce()
         # (no overlapping polls here: a second concurrent GET is a client
         # protocol violation which the server may answer by closing)
     sim.quiesce()
